@@ -141,6 +141,7 @@ class Interp:
         self.record = False
         self.yields, self.calls, self.labels = [], [], []
         self.outcomes, self.cops, self.subs = [], [], []
+        self.substores = []
         self.containers = set()
         self.container_arity = {}
         self.attr_writes = set()
@@ -479,7 +480,7 @@ class Interp:
     def assume(self, test, st, truth):
         """-> list of states (a disjunction); empty list = infeasible"""
         outs = self._assume(test, st.copy(), truth)
-        return [s for s in outs if not s.bottom]
+        return [s for s in outs if not s.bottom and not s.infeasible()]
 
     def _assume(self, t, st, truth):
         if isinstance(t, ast.UnaryOp) and isinstance(t.op, ast.Not):
@@ -675,6 +676,8 @@ class Interp:
             return
         s = self.sym_of(tgt)
         if s is None:
+            if self.record and isinstance(tgt, ast.Subscript):
+                self.substores.append((tgt, st.copy()))
             return
         if s.startswith("self."):
             self.attr_writes.add(s[5:])
